@@ -3,6 +3,7 @@
 //!
 //! Every harness is a plain `#[kani::proof]`, preceded by one `// @harness ...` metadata line that
 //! run_kani.py parses (name, props, kind, bound, tier, backs, expect).
+#![cfg_attr(kani, feature(allocator_api))]
 #![allow(non_snake_case)]
 #![allow(dead_code)]
 #![allow(unused_imports)]
